@@ -1158,11 +1158,13 @@ func (p *queryPlan) Execute(ctx context.Context) (*table.Table, error) {
 	if err := p.projectAndGroupBy(); err != nil {
 		return nil, err
 	}
-	p.orderBy()
+	// The having clause is applied before sorting: rows that do not qualify
+	// must not take part in the sort.
 	err := p.having()
 	if err != nil {
 		return nil, err
 	}
+	p.orderBy()
 	p.limit()
 	if p.tbl.NumRows() == 0 {
 		// Correct the bindings.
